@@ -1,5 +1,6 @@
 import PbVerif.Lemmas.Whittaker
 import PbVerif.Lemmas.Kron2d
+import PbVerif.Lemmas.Jbcd
 /-! C06 — Whittaker baselines solve the documented penalised least-squares system: the band arrays
 the methods assemble DENOTE the documented matrices, for every size, order, weight vector and
 storage layout (the solvers themselves are outside the model: each of their outputs is certified by an
@@ -63,5 +64,40 @@ theorem doc2d_apply_vec (m n dr dc : Nat) (lamr lamc : Rat) (w v : List Rat) (i 
 example : asm2dRows 2 2 1 1 2 3 [1, 1, 1, 1] = [[6, -3, -2, 0], [-3, 6, 0, -2], [-2, 0, 6, -3], [0, -2, -3, 6]] := by decide +kernel
 example : (∑ b ∈ Finset.range (2 * 2), (kronG (fun p q => (2:Int) * (if p = q then 1 else -1)) idG 2 (1 * 2 + 0) b
     + kronG idG (fun p q => (3:Int) * (if p = q then 1 else -1)) 2 (1 * 2 + 0) b) * ((fun p q => ((p + 2 * q : Nat) : Int)) (b / 2) (b % 2))) = -4 := by decide +kernel
+
+/-! ### jbcd (`morphological.py`): the two banded systems of every iteration -/
+
+/-- **`jbcd_asm_den`** (lower bands, `banded_solver = 3`, or 1–2 when `diff_order ≠ 2` / no pentapy): `c·penalty` with `diag` added to the
+main row denotes `diag·I + c·D'D`; signal step `(c, diag) = (γ, 1)`, baseline step `(2β, 1 + 2α)` -/
+theorem jbcd_asm_den_lower (n d : Nat) (c diag : Rat) (i j : Nat) (hi : i < n) (hj : j < n) :
+    denLower (asmJbcd n d c diag true false) i j = docJbcd n d c diag i j := Lemmas.jbcd_asm_den_lower n d c diag i j hi hj
+/-- … full bands (`banded_solver = 4`) -/
+theorem jbcd_asm_den_full (n d : Nat) (c diag : Rat) (i j : Nat) (hi : i < n) (hj : j < n) :
+    denFull (asmJbcd n d c diag false false) d i j = docJbcd n d c diag i j := Lemmas.jbcd_asm_den_full n d c diag i j hi hj
+/-- … reversed full bands (pentapy, `diff_order = 2`): the same array upside down -/
+theorem jbcd_asm_reversed (n d : Nat) (c diag : Rat) :
+    (asmJbcd n d c diag false true).reverse = asmJbcd n d c diag false false := Lemmas.jbcd_asm_reversed n d c diag
+/-- the baseline step is the documented `(I + 2αI + 2β D'D)` -/
+theorem jbcd_baseline_den (n d : Nat) (alpha beta : Rat) (i j : Nat) (hi : i < n) (hj : j < n) :
+    denLower (asmJbcdBaseline n d alpha beta true false) i j = delta i j 1 + 2 * alpha * delta i j 1 + 2 * beta * dtdQ n d i j := by
+  rw [show asmJbcdBaseline n d alpha beta true false = asmJbcd n d (2 * beta) (1 + 2 * alpha) true false from rfl,
+    Lemmas.jbcd_asm_den_lower n d _ _ i j hi hj]
+  unfold docJbcd delta
+  split <;> ring
+/-- the signal step as coded is `I + γ D'D` … -/
+theorem jbcd_signal_den (n d : Nat) (gamma : Rat) (i j : Nat) (hi : i < n) (hj : j < n) :
+    denLower (asmJbcdSignal n d gamma true false) i j = delta i j 1 + gamma * dtdQ n d i j :=
+  Lemmas.jbcd_asm_den_lower n d gamma 1 i j hi hj
+/-- … which is NOT the documented `I + 2γ D'D` (docs/algorithms/morphological.rst, also the stationarity condition of the documented
+objective) for any `γ ≠ 0` and `d < n`: the (0,0) entries differ.  (FALSE as planned: `jbcd_asm_den` for the signal system with `2γ`.) -/
+theorem jbcd_signal_ne_documented (n d : Nat) (gamma : Rat) (hg : gamma ≠ 0) (h : d < n) :
+    denLower (asmJbcdSignal n d gamma true false) 0 0 ≠ docJbcd n d (2 * gamma) 1 0 0 := by
+  rw [show asmJbcdSignal n d gamma true false = asmJbcd n d gamma 1 true false from rfl,
+    Lemmas.jbcd_asm_den_lower n d gamma 1 0 0 (by omega) (by omega)]
+  exact Lemmas.jbcd_signal_ne_documented n d gamma hg h
+
+example : asmJbcdSignal 4 1 3 true false = [[4, 7, 7, 4], [-3, -3, -3, 0]] ∧
+    asmJbcdBaseline 4 1 (1/2) 3 false false = [[0, -6, -6, -6], [8, 14, 14, 8], [-6, -6, -6, 0]] := by decide +kernel
+example : denLower (asmJbcdSignal 4 1 3 true false) 0 0 = 4 ∧ docJbcd 4 1 (2 * 3) 1 0 0 = 7 := by decide +kernel
 
 end PbVerif.C06
